@@ -64,3 +64,55 @@ func init() {
 		Outside: []string{"frames longer than 1536 bytes", "host tables with more than one pre-existing host (C04/C05)", "String/FastLog renderers (C20)"},
 	})
 }
+
+func init() {
+	register(&Prop{
+		ID:        "C15",
+		Technique: "induction on length over the real SSA of Checksum with cut-point generalisation; each step one SMT query (z3, cvc5/z3-int portfolio for the header completions)",
+		Jobs: func(tier string) []Job {
+			max := 128
+			if tier == "thorough" {
+				max = 1522
+			}
+			c := Config{MaxLoop: 2000, MaxWall: 1500, MaxSteps: 60000000, Stubs: map[string]bool{}}
+			jobs := []Job{{Pkg: "root", Func: "VerifC15Base", Cfg: c, Reach: []string{"done"}}}
+			chunk := (max/2/14 + 1) * 2
+			for lo := 0; lo < max; lo += chunk {
+				hi := lo + chunk
+				if hi > max {
+					hi = max
+				}
+				jobs = append(jobs, Job{Pkg: "root", Func: "VerifC15Step", Args: []int64{int64(lo), int64(hi)}, Cfg: c, Reach: []string{"done"}})
+				jobs = append(jobs, Job{Pkg: "root", Func: "VerifC15RefStep", Args: []int64{int64(lo), int64(hi)}, Cfg: c, Reach: []string{"done"}})
+			}
+			dmax := 6
+			if tier == "thorough" {
+				dmax = 12
+			}
+			for L := 0; L <= dmax; L++ {
+				jobs = append(jobs, Job{Pkg: "root", Func: "VerifC15Direct", Args: []int64{int64(L)}, Cfg: c, Reach: []string{"done"}})
+			}
+			jobs = append(jobs, Job{Pkg: "root", Func: "VerifC15IP4Header", Args: []int64{0}, Cfg: c, Reach: []string{"done"}})
+			jobs = append(jobs, Job{Pkg: "root", Func: "VerifC15IP4Header", Args: []int64{1}, Cfg: c, Reach: []string{"done"}})
+			return jobs
+		},
+		Bounds: func(tier string) map[string]string {
+			max := "128"
+			d := "6"
+			if tier == "thorough" {
+				max, d = "1522", "12"
+			}
+			return map[string]string{
+				"Checksum == RFC 1071": "every length 0.." + max + " (even and odd), every content: base case + one inductive step per length",
+				"direct equivalence":   "every length 0.." + d + ", every content, against a textbook big-endian reference",
+				"IPv4 header":          "every ttl, protocol, source/destination address, payload length 0..1480 and content; SetPayload and AppendPayload",
+			}
+		},
+		Assumptions: []string{
+			"the reference is defined by the RFC 1071 recurrence (un-complement, add big-endian word with end-around carry, complement); the textbook loop is shown to satisfy the same recurrence (VerifC15RefStep) and to agree directly for short lengths",
+			"cut-point generalisation replaces the shared accumulator by a fresh bounded variable; unsat of the generalised query implies unsat of the original; sat is re-checked ungeneralised",
+			"ICMPv4/ICMPv6 message completions by the send functions are decided under C07",
+		},
+		Outside: []string{"lengths above the tier bound; the 32-bit accumulator can wrap from 65537 words on (far beyond any Ethernet frame)"},
+	})
+}
